@@ -124,3 +124,53 @@ def payload_is_isolated(p, payload, obj):
         ts = State(facts=p.facts).types(obj)
         return ts is not None and ts <= IMMUTABLE_ATOMS
     return False
+
+
+def refuted_at_defaults(eng, qualname, modelled, facts):
+    """can this set of path facts only hold when an optional parameter that the property does not
+    speak about (one added after the `modelled` leading parameters, with a constant default) is
+    given a non-default value?  Then the path does not exist for callers that use the documented
+    signature."""
+    import ast as _ast
+
+    from sa.terms import C, P, subst
+    from sa.walker import State
+
+    fi = eng.prog.funcs.get(qualname)
+    if fi is None:
+        return False
+    a = fi.node.args
+    pos = a.posonlyargs + a.args
+    defaults = {}
+    for arg, d in zip(pos[len(pos) - len(a.defaults):], a.defaults):
+        defaults[arg.arg] = d
+    for arg, d in zip(a.kwonlyargs, a.kw_defaults):
+        if d is not None:
+            defaults[arg.arg] = d
+    mp = {}
+    for name, d in defaults.items():
+        if name in modelled:
+            continue
+        if isinstance(d, _ast.Constant):
+            mp[P(name)] = C(d.value)
+    if not mp:
+        return False
+    empty = State()
+    for f in facts:
+        g = subst(f, mp)
+        if g is f or g == f:
+            continue
+        try:
+            if empty.contradicts(g):
+                return True
+        except Exception:
+            continue
+        if g[0] in ("in", "notin") and g[1][0] == "const":
+            from sa.terms import is_lit, lit_const_values
+
+            vals = lit_const_values(g[2]) if is_lit(g[2]) else None
+            if vals is not None:
+                inside = any(type(v) is type(g[1][2]) and v == g[1][2] for v in vals)
+                if (g[0] == "in") != inside:
+                    return True
+    return False
